@@ -17,8 +17,9 @@ SeqToSet(s) == {s[i] : i \in DOMAIN s}
 
 CfgOf(t) == [aaaaOff |-> t.cfg.aaaaOff, refuseAny |-> t.cfg.refuseAny, ddr |-> t.cfg.ddr, tls |-> t.cfg.tls,
              dhcp |-> t.cfg.dhcp, leases |-> SeqToSet(t.cfg.leases), suffix |-> t.cfg.suffix,
-             privPTR |-> t.cfg.privPTR, blocked |-> SeqToSet(t.cfg.blocked)]
-ReqOf(t) == [name |-> t.req.name, canon |-> t.req.canon, qt |-> t.req.qt, cpriv |-> t.req.cpriv, rev |-> t.req.rev]
+             privPTR |-> t.cfg.privPTR, blocked |-> SeqToSet(t.cfg.blocked), dns64 |-> (t.cfg.dns64 # "off")]
+ReqOf(t) == [name |-> t.req.name, canon |-> t.req.canon, qt |-> t.req.qt, cpriv |-> t.req.cpriv, rev |-> t.req.rev,
+             up |-> [nx |-> t.req.up.nx, a6 |-> SeqToSet(t.req.up.a6), a4 |-> SeqToSet(t.req.up.a4)]]
 ObsOf(t) == [c |-> t.out.c, fwd |-> t.out.fwd, v |-> SeqToSet(t.out.v), log |-> t.out.log]
 
 \* The clauses of the verdict that admit the observed outcome of line i.
